@@ -9,11 +9,31 @@ import sys
 from .common import Report, run_driver_parallel, seed, log, VERIF, REPO, PY
 from .impl import run_cases
 
-STAMP = re.compile(r"^// Generated using fcp .*$", re.M)
+def _stamp_pattern():
+    """the generation-stamp comment line, as the C++ templates of the tree under check write it: every template line that
+    carries the `date` variable, its literal parts kept and its variables opened up (so a reworded stamp is still
+    recognised; the default is the line as shipped)"""
+    pats = set()
+    tdir = REPO / "plugins" / "fcp_cpp" / "fcp_cpp"
+    try:
+        for f in sorted(tdir.iterdir()):
+            if f.suffix not in (".h", ".j2"):
+                continue
+            for line in f.read_text(errors="replace").split("\n"):
+                if re.search(r"\{\{\s*date\s*\}\}", line) and line.lstrip().startswith("//"):
+                    parts = re.split(r"\{\{.*?\}\}", line.strip())
+                    pats.add("[ \\t]*" + ".*".join(re.escape(x) for x in parts))
+    except OSError:
+        pass
+    pats.add(r"// Generated using fcp .*")
+    return re.compile("^(?:" + "|".join(sorted(pats)) + ")$", re.M)
+
+
+STAMP = _stamp_pattern()
 
 
 def strip_stamp(s):
-    return STAMP.sub("// Generated using fcp <stamp>", s)
+    return STAMP.sub("// <generation stamp>", s)
 
 
 # ------------------------------------------------------------------ implementation side
